@@ -92,8 +92,15 @@ func init() {
 					default:
 						toks = append(toks, fmt.Sprintf("D:%d.3.0", next+10+2*r.intn(3)))
 					}
-				case 10: // trailers: valid, invalid, without END_STREAM, duplicated, on half-closed
-					if s, ok := pick(open); ok && r.chance(2, 3) {
+				case 10: // trailers: valid, invalid, without END_STREAM, duplicated, on half-closed, after an early response
+					if r.chance(1, 6) {
+						// the handler returns before the request ended (RST_STREAM NO_ERROR); the trailers are already on
+						// their way (finding D19)
+						toks = append(toks, fmt.Sprintf("H:%d.0.-.q-.r", next), fmt.Sprintf("H:%d.1.-.T.r", next))
+						gone = append(gone, next)
+						next += 2
+						c.tag("trailers-after-early-response")
+					} else if s, ok := pick(open); ok && r.chance(2, 3) {
 						toks = append(toks, fmt.Sprintf("H:%d.%d.-.%s.r", s, b2i(!r.chance(1, 5)), []string{"T", "T", "t", "P"}[r.intn(4)]))
 					} else if s, ok := pick(half); ok {
 						toks = append(toks, fmt.Sprintf("H:%d.1.-.T.r", s))
@@ -147,6 +154,7 @@ func init() {
 			c.tag("frames:" + bucket(len(toks)))
 			c.tag(fmt.Sprintf("maxstreams:%d", maxStreams))
 			c.op(fmt.Sprintf("h2sm maxstreams=%d ev=%s", maxStreams, strings.Join(toks, ",")))
+			c.op(fmt.Sprintf("h2smrif maxstreams=%d ev=%s", maxStreams, strings.Join(toks, ",")))
 		}
 	})
 }
